@@ -20,7 +20,7 @@ ASSUMPTIONS = [
     "shooting growth of the Nyquist mode bounded by exp(13.8) by construction of dx,dy (rounding model in pbt/tol.py)",
     "levels ascending (ordering is C10's subject)",
 ]
-TOLERANCES = {"double": "(1e-12 + 256*eps*G) * max(|q0|_1*max|fp|, max|forward|)", "single": "1e-4 * same scale"}
+TOLERANCES = {"double": "(1e-12 + 4096*eps*G) * max(|q0|_1*max|fp|, max|forward|)", "single": "1e-4 * same scale"}
 BUDGET = {"quick": dict(examples=500, shards=1), "thorough": dict(examples=3000, shards=16)}
 
 
@@ -80,6 +80,7 @@ def check_case(case):
     from bldfm.utils import point_measurement
 
     l1 = float(np.abs(q0).sum())
+    fs0, cs0 = tol.natural_scales(q0, z, prof, case["bg"])
     nz_cells = int(np.count_nonzero(q0))
     worst = 0.0
     for k in range(len(lv)):
@@ -87,7 +88,7 @@ def check_case(case):
             lhs = float(point_measurement(q0, fp))
             lhs2 = float(np.sum(q0 * fp))
             rhs = float(fw[jm, im]) - off
-            scale = max(l1 * tol.maxabs(fp), tol.maxabs(fw), abs(off))
+            scale = max(l1 * tol.maxabs(fp), tol.maxabs(fw), abs(off), fs0 if name == "flux" else cs0)
             bound = rel * scale
             err = max(abs(lhs - rhs), abs(lhs2 - rhs))
             worst = max(worst, err / scale if scale > 0 else 0.0)
